@@ -244,32 +244,67 @@ def r7(prog, run):
     rid = run.rule('C19.R7', 'the (sender, session id) lookup returns a job only if both the sender JID and the session id match; and an error reply to a data block ends the '
                              'outgoing job with an error: the first terminate() on that path (helpers included) is not NoError', floor=3)
     lk = prog.fn('QXmppTransferManagerPrivate::getIncomingJobBySid')
+    pvars = {p['var']: k for k, p in enumerate(lk.params)}
+
+    def param_of(f, x):
+        m = f.nodes[f.skip(x)]
+        if m['k'] == 'var' and m.get('decl') in pvars and (f.id == lk.id or m.get('outer')):
+            return pvars[m['decl']]
+        return None
+
+    def eq_param(f, c, pol):
+        bo = f.binop(f.skip(c))
+        if bo and ((bo[0] == '==' and pol is True) or (bo[0] == '!=' and pol is False)):
+            for x in (bo[1], bo[2]):
+                k = param_of(f, x)
+                if k is not None:
+                    return k
+        return None
+
+    def conjuncts(f, e):
+        bo = f.binop(f.skip(e))
+        if bo and bo[0] == '&&':
+            return conjuncts(f, bo[1]) + conjuncts(f, bo[2])
+        return [e]
+
+    def matched_at(f, ret_nid, expr):
+        """parameters whose equality with the job's data is established for the job returned here"""
+        have = {k for c, pol in f.atomic_assertions_at(ret_nid) for k in [eq_param(f, c, pol)] if k is not None}
+        # a job found by std::find_if: what the predicate demands
+        for j in f.walk(expr):
+            m = f.nodes[j]
+            if m['k'] == 'var' and m.get('vk') == 'local':
+                d0 = f.single_def(m['decl'])
+                dn = f.nodes[f.skip(d0)] if d0 is not None else {}
+                if dn.get('k') == 'call' and f.cname(dn) in ('std::find_if', 'std::ranges::find_if'):
+                    for a in dn.get('args', []):
+                        an = f.nodes[f.skip(a)]
+                        if an['k'] == 'lambda':
+                            for lam in prog.lambda_fns(f, an):
+                                rets = [rn for _, rn in lam.returns() if 'e' in rn]
+                                if len(rets) == 1:
+                                    have |= {k for c in conjuncts(lam, rets[0]['e']) for k in [eq_param(lam, c, True)] if k is not None}
+        return have
+    rets = []
+    for i, n in lk.returns():
+        if 'e' not in n:
+            continue
+        if lk.const_value(n['e']) == ('null', None) or any(lk.nodes[j]['k'] == 'null' for j in lk.walk(n['e'])) and not any(lk.nodes[j]['k'] == 'var' for j in lk.walk(n['e'])):
+            continue
+        rets.append((i, n))
+    if not rets:
+        raise AnalysisBroken('C19.R7: getIncomingJobBySid returns no job')
     for pidx, what in ((0, 'sender JID'), (1, 'session id')):
         run.instance(rid)
-
-        def custom(f, nid, st, pidx=pidx):
-            bo = f.binop(nid)
-            if bo and bo[0] in ('==', '!='):
-                for x in (bo[1], bo[2]):
-                    m = f.nodes[f.skip(x)]
-                    if m['k'] == 'var' and m.get('vk') == 'param' and m.get('pidx') == pidx and f.id == lk.id:
-                        return (bo[0] == '!=',)
-            return None
-        ev = cfgx.Evaluator(lk, {}, custom=custom)
-        reach = cfgx.reach_with_paths(lk, lambda f, c, st: ev.ev(c, st))
-        bad = None
-        for i, n in lk.returns():
-            pos = lk.pos(i)
-            if pos and pos[0] in reach and 'e' in n and lk.const_value(n['e']) != ('null', None):
-                v = lk.nodes[lk.skip(n['e'])]
-                if not (v['k'] in ('cast', 'construct') and lk.const_value(v.get('e', v.get('args', [None])[0])) == ('null', None)):
-                    bad = (i, reach[pos[0]])
+        bad = [(i, n) for i, n in rets if pidx not in matched_at(lk, i, n['e'])]
+        # a conditional expression "found ? job : nullptr" is decided by its condition, which atomic_assertions_at does not see: accept when the local it tests
+        # comes from a find_if whose predicate demands the parameter (handled in matched_at through the walk of the returned expression)
         if bad:
-            run.violation(rid, 'getIncomingJobBySid#ignores-%s' % what.split(' ')[0], lk.loc(bad[0]),
-                          'the lookup can return a job although the %s of the request differs from the job\'s: a block (or open/close) from another entity is applied to this '
-                          'transfer' % what, cfgx.describe_path(lk, bad[1]))
+            run.violation(rid, 'getIncomingJobBySid#ignores-%s' % what.split(' ')[0], lk.loc(bad[0][0]),
+                          'the lookup can return a job (%s) without having compared the %s of the request with the job\'s: a block (or open/close) from another entity is applied '
+                          'to this transfer' % (lk.fmt(bad[0][1]['e'], inline=False)[:50], what))
         else:
-            run.ok(rid, lk.loc(), 'no job is returned when the %s differs' % what)
+            run.ok(rid, lk.loc(), 'a job is returned only where its %s equals the requested one' % what)
     rsp = prog.fn(TM + '::ibbResponseReceived')
     run.instance(rid)
 
